@@ -158,7 +158,7 @@ def resolve_sequence(ctx: Ctx, referrer: ADef, lookups: List[ADef], refs: List[T
     return out
 
 
-def resolve(ctx: Ctx, referrer: ADef, lookups: List[ADef], name: str, major: int, minor: int, visitors: Optional[List[Any]] = None) -> Dict[str, Any]:
+def resolve(ctx: Ctx, referrer: ADef, lookups: List[ADef], name: str, major: int, minor: int, visitors: Optional[List[Any]] = None, allow_unregulated: bool = True) -> Dict[str, Any]:
     """DataTypeBuilder(referrer, lookups, ...).resolve_versioned_data_type(name, Version(major, minor)) evaluated abstractly"""
     cls = ctx.cls("_data_type_builder.DataTypeBuilder")
     log: List[Any] = []
@@ -167,7 +167,7 @@ def resolve(ctx: Ctx, referrer: ADef, lookups: List[ADef], name: str, major: int
     handler = Sym(_kind_="print-handler")
     vis = visitors if visitors is not None else []
     try:
-        b = construct(ctx, cls, referrer, list(lookups), vis, handler, True, hook=hook)
+        b = construct(ctx, cls, referrer, list(lookups), vis, handler, allow_unregulated, hook=hook)
         out["builder"] = b
         out["handler"] = handler
         out["result"] = Folder({"b": b, "n": name, "v": _version(major, minor)}, ctx.repo, cls.module, cls, hook).fold(ast.parse("b.resolve_versioned_data_type(n, v)", mode="eval").body)
